@@ -189,3 +189,25 @@ def store_programs():
     yield ("multi",), "a = b = [1]\na.append(2)\nprint(a, b, a is b)\n"
     yield ("multi-pattern",), "(a, b), c = d = [(1, 2), 3]\nprint(a, b, c, d)\n"
     yield ("ann",), "x: int = 5\ny: str\nprint(x)\n"
+    # simultaneous assignment: the whole right-hand side is evaluated before any target is stored (the right-hand side is a
+    # display that reads the targets)
+    SIM = {
+        "swap": "a, b = 1, 2\na, b = b, a\nprint(a, b)\n",
+        "fib": "a, b = 0, 1\nfor _ in range(10):\n    a, b = b, a + b\nprint(a, b)\n",
+        "rotate-list": "a, b, c = 1, 2, 3\n[a, b, c] = [b, c, a]\nprint(a, b, c)\n",
+        "elements": "x = [10, 20, 30]\ni, j = 0, 2\nx[i], x[j] = x[j], x[i]\nprint(x)\n",
+        "attributes": PRELUDE + "o = Box()\no.p, o.q = 1, 2\no.p, o.q = o.q, o.p\nprint(o.p, o.q)\n",
+        "nested": "a, b, c = 1, 2, 3\na, (b, c) = c, (a, b)\nprint(a, b, c)\n",
+        "mixed": "x = [1, 2]\na = 5\na, x[0], x[1] = x[1], a, x[0]\nprint(a, x)\n",
+        "slices": "l = [1, 2, 3, 4]\nl[:2], l[2:] = l[2:], l[:2]\nprint(l)\n",
+        "chain-swap": "a, b = 1, 2\nt = a, b = b, a\nprint(t, a, b)\n",
+    }
+    for k, body in SIM.items():
+        yield ("simultaneous", k), body
+        ind = "\n".join("    " + l for l in body.strip().split("\n"))
+        if "PRELUDE" not in k and not body.startswith(PRELUDE):
+            yield ("simultaneous-local", k), "def f():\n" + ind + "\nf()\n"
+            yield ("simultaneous-class", k), "class K:\n" + ind + "\n"
+            lines = body.strip().split("\n")
+            yield ("simultaneous-captured", k), ("def f():\n" + ind + "\n    def g():\n        return (a,)\n    return g()\nf()\n"
+                                                 if lines[0].startswith("a") else "def f():\n" + ind + "\nf()\n")
